@@ -28,6 +28,9 @@ pub enum Medium {
     /// a little-endian 64-bit field overwritten with a structurally interesting value (the file
     /// length, the field's own position, a neighbouring boundary, 0, a huge number)
     SetU64 { off: u64, val: u64 },
+    /// the start of a later commit's trailer written at `at` and torn: the 8-byte footer magic
+    /// followed by `len` garbage bytes (the file grows if `at + 8 + len` lies beyond its end)
+    TornTrailer { at: u64, len: u64, seed: u64 },
 }
 
 #[derive(Clone, Debug)]
@@ -74,6 +77,16 @@ fn apply(bytes: &[u8], m: &Medium) -> Vec<u8> {
             if *off + 8 <= n {
                 b[*off as usize..*off as usize + 8].copy_from_slice(&val.to_le_bytes());
             }
+        }
+        Medium::TornTrailer { at, len, seed } => {
+            let mut r = Rng::new(*seed, "torn-trailer");
+            let at = (*at).min(n) as usize;
+            let mut rec = b"MV2FOOT!".to_vec();
+            rec.extend((0..*len).map(|_| r.below(256) as u8));
+            if b.len() < at + rec.len() {
+                b.resize(at + rec.len(), 0);
+            }
+            b[at..at + rec.len()].copy_from_slice(&rec);
         }
         Medium::Splice { head, tail_from } => {
             let h = (*head).min(n) as usize;
@@ -181,10 +194,18 @@ pub fn regions_of(bytes: &[u8], frames: &[(u64, u64)]) -> Vec<Region> {
     v
 }
 
-pub fn gen_faults(r: &mut Rng, regs: &[Region], bytes: &[u8], count: usize, log_writes: &[usize], repairable_only: bool) -> Vec<(Medium, &'static str)> {
+pub fn gen_faults(r: &mut Rng, regs: &[Region], bytes: &[u8], count: usize, log_writes: &[usize], repairable_only: bool, footer_focus: bool) -> Vec<(Medium, &'static str)> {
     let n_bytes = bytes.len() as u64;
     let mut out = Vec::new();
     for _ in 0..count {
+        if footer_focus && n_bytes >= 56 && r.chance(1, 8) {
+            // a torn later trailer that starts inside, right behind or shortly after the last
+            // footer (its generation field is not covered by the hash, so the footer stays valid)
+            let foot = n_bytes - 56;
+            let at = foot + *r.pickv(&[48u64, 49, 52, 55, 56, 57, 60, 100, 8, 16]);
+            out.push((Medium::TornTrailer { at, len: *r.pickv(&[48u64, 48, 56, 100, 8]), seed: r.next() }, "footer"));
+            continue;
+        }
         let mut reg = r.pickv(regs).clone();
         if repairable_only {
             // C21: only structures doctor claims to repair
@@ -304,7 +325,7 @@ pub fn run_corrupt(scn: &Scenario, prop: &str, explore: bool) -> RunResult {
         vec![(m.clone(), "explicit")]
     } else if explore {
         let n = if tier_thorough { 300 } else { 40 };
-        gen_faults(&mut r, &regs, &pristine, n, &log_writes, prop == "C21")
+        gen_faults(&mut r, &regs, &pristine, n, &log_writes, prop == "C21", prop == "C31")
     } else {
         Vec::new()
     };
